@@ -61,7 +61,7 @@ theorem spec_ignores_others (acts : List Act) (k : Bytes) :
       exact ih _
 
 /-- **Batch rule.** For every sequence of handler invocations (batches of events with repeated keys, arbitrary responses,
-timers set and fired in between): invocation `i` receives one key state per distinct event key, and the state for key `k`
+timers set and fired in between; an event is a keyed event or a timer-expired event, both carry a key): invocation `i` receives one key state per distinct event key, and the state for key `k`
 is the map obtained by replaying all mutations returned by invocations `< i` for `k`, in invocation and result order —
 the mutations of invocation `i` itself are applied only after the handler returned. -/
 theorem batch_semantics (kgc : Nat) (bs : List Batch) (hwf : ∀ b ∈ bs, b.WF) (i : Nat) (b : Batch) (hb : bs[i]? = some b) :
@@ -83,6 +83,40 @@ theorem batch_semantics (kgc : Nat) (bs : List Batch) (hwf : ∀ b ∈ bs, b.WF)
     rw [histBefore_lwrites] at this
     rw [← e2]
     exact this
+
+/-- **Batch rule across checkpoints and restores** ("since job start or since the restored checkpoint"). For every
+history of handler invocations (events are keyed events and timer-expired events alike: `fired` are the timers the
+watermark popped before the invocation), DKV checkpoints and redeploys from the latest checkpoint: invocation `i`
+receives one key state per distinct event key, and the state for `k` is the replay of the mutations returned by the
+*effective* earlier invocations — those before the restored checkpoint and those since the restore; what was returned
+between a checkpoint and the restore from it is gone, nothing else is lost or added. -/
+theorem restore_semantics (kgc : Nat) (steps : List OpStep) (hwf : ∀ b, OpStep.batch b ∈ steps → b.WF)
+    (i : Nat) (b : Batch) (hb : steps[i]? = some (.batch b)) :
+    ∃ obs, (runOps kgc {} steps)[i]? = some (some obs) ∧
+      obs.map (·.1) = distinctKeys b.events ∧
+      ∀ k st, (k, st) ∈ obs →
+        Matches st (specLookup ((effective (steps.take i)).1.flatMap (fun b => b.resp.flatMap KeyResult.lwrites)) k) := by
+  have h := runOps_get kgc steps {} ([], none) (opInv_init kgc) i b hb
+  refine ⟨_, h, by simp [List.map_map, Function.comp_def], ?_⟩
+  intro k st hmem
+  simp only [List.mem_map, Prod.mk.injEq] at hmem
+  obtain ⟨k', hk', e1, e2⟩ := hmem
+  subst e1
+  have hbm : OpStep.batch b ∈ steps := List.mem_of_getElem? hb
+  have hkl := (hwf b hbm).1 k' ((distinctKeys_mem _ _).mp hk')
+  have heff : ∀ b' ∈ ((steps.take i).foldl effStep ([], none)).1, b'.WF :=
+    eff_all Batch.WF (steps.take i) ([], none) (by simp) (by simp)
+      (fun b' hb' => hwf b' (List.mem_of_mem_take hb'))
+  have hactswf : ∀ a ∈ ((steps.take i).foldl effStep ([], none)).1.flatMap Batch.acts ++ b.firedActs, a.WF := by
+    intro a ha
+    rcases List.mem_append.mp ha with ha | ha
+    · obtain ⟨b', hb', hab⟩ := List.mem_flatMap.mp ha
+      exact batch_acts_wf b' (heff b' hb') a hab
+    · exact batch_acts_wf b (hwf b hbm) a (by simp only [Batch.acts, List.mem_append]; exact Or.inl ha)
+  have := getState_matches kgc _ hactswf k' hkl
+  rw [List.flatMap_append, firedActs_lwrites, List.append_nil, batches_lwrites] at this
+  rw [← e2]
+  exact this
 
 /-- the length fields of the model's encoders are the ones the source writes (facts regenerated from
 `keyed_state_store.go` on every run): width and byte order of the subject-key length, and the width of the length
@@ -135,6 +169,22 @@ set_option synthInstance.maxSize 1024 in
 example : (runBatches 2 [] demoBatches)[1]? = some [([0x6b], [([0x61], [([1], [2])])])] := by decide
 set_option synthInstance.maxSize 1024 in
 example : (runBatches 2 [] demoBatches)[2]? = some [([0x6b], [])] := by decide
+
+/-- checkpoint, more mutations, restore: the second invocation's delete is forgotten, the first invocation's put stays;
+the third step's events are timer-expired events of the timer the first invocation set -/
+def demoSteps : List OpStep :=
+  [ .batch { fired := [], events := [[0x6b]], resp := [{ key := [0x6b], timers := [7], muts := [([0x61], [.put [1] [2]])] }] },
+    .ckpt,
+    .batch { fired := [], events := [[0x6b]], resp := [{ key := [0x6b], timers := [], muts := [([0x61], [.del [1], .put [3] [4]])] }] },
+    .restore,
+    .batch { fired := [([0x6b], 7)], events := [[0x6b]], resp := [] } ]
+
+set_option synthInstance.maxSize 1024 in
+example : runOps 2 {} demoSteps =
+    [some [([0x6b], [])], none, some [([0x6b], [([0x61], [([1], [2])])])], none, some [([0x6b], [([0x61], [([1], [2])])])]] := by
+  decide
+
+example : (effective (demoSteps.take 4)).1.length = 1 := by decide
 
 /-- the aliasing guard on concrete data -/
 example : Keys.dbKey 1 [] (List.replicate 256 0x6e) [7] = Keys.dbKey 1 [] [] (List.replicate 256 0x6e ++ [7]) :=
